@@ -34,6 +34,14 @@ Theorem C05_stream_order : forall ops s outs,
 Proof. exact sq_order. Qed.
 Print Assumptions C05_stream_order.
 
+(* The same with back-pressure, for every capacity of the entries queue: a producer that cannot put
+   (also its final end / failure marker) waits; nothing is lost, duplicated or reordered. *)
+Theorem C05_stream_order_bounded : forall cap ops b outs (flags : list (bool * nat)),
+  b_run (bsq_init cap) ops = (b, outs, flags) ->
+  concat (map out_entries outs) ++ q_term (b_q b) ++ sq_contents (b_q b) ++ b_wait b = pushed_of ops.
+Proof. exact bsq_order. Qed.
+Print Assumptions C05_stream_order_bounded.
+
 (* Termination exactly once: over every sequence of graph-event batches (enabled or not), the
    termination event is emitted at most once, as the very last event, exactly when a batch leaves
    no root group and no root stream; afterwards the queue is stopped (and emits nothing more). *)
